@@ -28,7 +28,7 @@ BlankMsg == [alive |-> FALSE, seen |-> FALSE, s |-> 0, rc |-> <<>>, prepped |-> 
              lostnote |-> FALSE, chgone |-> <<FALSE, FALSE>>, bgone |-> TRUE, isbounce |-> FALSE, form |-> "", base |-> 0, todo |-> FALSE]
 InitMon == [msgs |-> [n \in 1..NMAX |-> BlankMsg], fl |-> {}, conc |-> <<0, 0>>, ann |-> <<0, 0>>, crashed |-> FALSE, lossy |-> FALSE,
             now |-> 0, term |-> FALSE, alrm |-> 0, dead |-> <<FALSE, FALSE>>, life |-> 604800, up |-> FALSE, lastcrash |-> 0,
-            eidx |-> 0, didx |-> 0, dbto |-> 0, seq |-> 0, faulted |-> FALSE, starts |-> 0]
+            eidx |-> 0, didx |-> 0, dbto |-> 0, seq |-> 0, faulted |-> FALSE, starts |-> 0, pass |-> <<0, 0>>]
 
 MinI(a, b) == IF a < b THEN a ELSE b
 Limit(st, c) == MinI(st.conc[c + 1], st.ann[c + 1])
@@ -58,7 +58,7 @@ Step(st0, e, strict) ==
       m  == IF n \in 1..NMAX THEN st.msgs[n] ELSE BlankMsg
   IN
   CASE e.op = "start" ->
-         R([st EXCEPT !.conc = <<e.conc[1], e.conc[2]>>, !.ann = <<e.announce[1], e.announce[2]>>, !.fl = {}, !.term = FALSE,
+         R([st EXCEPT !.pass = <<0, 0>>, !.conc = <<e.conc[1], e.conc[2]>>, !.ann = <<e.announce[1], e.announce[2]>>, !.fl = {}, !.term = FALSE,
                       !.dead = <<FALSE, FALSE>>, !.up = TRUE, !.starts = st.starts + 1, !.eidx = e.s, !.didx = e.d, !.dbto = e.a, !.life = e.pos], "")
     [] e.op = "accept" ->
          IF n \notin 1..NMAX THEN R(st, "")
@@ -98,12 +98,13 @@ Step(st0, e, strict) ==
                              IN \E k \in 1..NMAX : k # n /\ st.msgs[k].alive /\ st.msgs[k].prepped /\ ~(\E f2 \in st.fl : f2[3] = k /\ st.msgs[k].recs[f2[4]].c = c) /\
                                    \E j \in 1..Len(st.msgs[k].recs) : LET q == st.msgs[k].recs[j] IN
                                         q.c = c /\ ~q.mark /\ ~q.fl /\ q.free /\ dueOf(k, j) < mine /\ dueOf(k, j) + 1 < e.t
-                                        /\ ~(\E f3 \in st.fl : f3[3] = n /\ st.msgs[n].recs[f3[4]].c = c)          \* this delcmd opens a new pass of message n
+                                        /\ st.pass[c + 1] # n                                                  \* this delcmd opens a new pass of message n (no pass of n over this list is open: event passeof)
+                                        /\ ~(\E f3 \in st.fl : f3[3] = n /\ st.msgs[n].recs[f3[4]].c = c)
                                         /\ \A j2 \in 1..Len(st.msgs[n].recs) : st.msgs[n].recs[j2].c = c => (st.msgs[n].recs[j2].mark \/ st.msgs[n].recs[j2].satt < rec.satt \/ j2 = i \/ st.msgs[n].recs[j2].att = 0))
                          THEN R(st, "C15:LaterDueMessageServedBeforeEarlierDue")
                     ELSE IF strict /\ rec.att > 0 /\ ~rec.alrmed /\ st.lastcrash <= rec.satt /\ rec.free /\ e.t < Backoff(m.birth, rec.tatt, c)
                          THEN R(st, IF rec.topen THEN "C15:RetriedBeforeBackoffTime:PassOpenAtTerm" ELSE "C15:RetriedBeforeBackoffTime")
-                    ELSE R([st EXCEPT !.fl = st.fl \cup {f}, !.msgs[n].recs[i].fl = TRUE, !.msgs[n].recs[i].att = rec.att + 1,
+                    ELSE R([st EXCEPT !.pass[c + 1] = n, !.fl = st.fl \cup {f}, !.msgs[n].recs[i].fl = TRUE, !.msgs[n].recs[i].att = rec.att + 1,
                                       !.msgs[n].recs[i].tatt = e.t, !.msgs[n].recs[i].satt = st.seq, !.msgs[n].recs[i].last = "", !.msgs[n].recs[i].free = TRUE, !.msgs[n].recs[i].topen = FALSE, !.msgs[n].recs[i].alrmed = FALSE], "")
     [] e.op = "report" ->
          LET fs == {f \in st.fl : f[1] = e.c /\ f[2] = e.d}
@@ -171,7 +172,7 @@ Step(st0, e, strict) ==
     [] e.op = "rmmess" ->
          IF n \in 1..NMAX /\ m.alive /\ m.prepped THEN R(st, "C02:MessageBodyRemovedWhileInfoPresent") ELSE R(st, "")
     [] e.op = "crash" ->
-         R([st EXCEPT !.fl = {}, !.crashed = TRUE, !.lossy = (st.lossy \/ e.lossy = 1), !.term = FALSE, !.up = FALSE, !.lastcrash = st.seq,
+         R([st EXCEPT !.pass = <<0, 0>>, !.fl = {}, !.crashed = TRUE, !.lossy = (st.lossy \/ e.lossy = 1), !.term = FALSE, !.up = FALSE, !.lastcrash = st.seq,
                       !.msgs = [k \in 1..NMAX |-> [st.msgs[k] EXCEPT !.recs = [i \in 1..Len(st.msgs[k].recs) |-> [st.msgs[k].recs[i] EXCEPT !.fl = FALSE, !.last = ""]]]]], "")
     [] e.op = "lost" ->
          LET idx == RecAt(m, e.c, e.pos)
@@ -249,6 +250,7 @@ Step(st0, e, strict) ==
             ELSE IF \E k \in vis : lines(k) # want(k) \/ Cardinality({j \in 1..Len(e.recs) : e.recs[j][1] = k /\ e.recs[j][2] # -1}) # Cardinality(keep(k))
                    THEN R(st, "X01:ListedRecipientsOrDoneMarksWrong")
             ELSE R(st, "")
+    [] e.op = "passeof" -> IF st.pass[e.c + 1] = n THEN R([st EXCEPT !.pass[e.c + 1] = 0], "") ELSE R(st, "")
     [] e.op = "noexit" -> R(st, "C03:DaemonDoesNotExitAfterTermWithNothingInFlight")
     [] e.op = "busyloop" -> R(st, "C16:DaemonNeverBlocks")
     [] e.op = "hang" -> R(st, "C15:DaemonStopsMakingProgress")
